@@ -142,6 +142,9 @@ def C12(tier):
             # two unbounded numerators over positive denominators; denominators of either sign with the second numerator in -D..D
             obs.append([law, {'D': D, 'posden': True}])
             obs.append([law, {'D': min(D, 8), 'smallc': True}])
+        elif law == 'rt_int_mix':
+            # the int operand and the denominator are realised: the path count grows with D squared
+            obs.append([law, {'D': (3 if tier != 'thorough' else 6)}])
         else:
             obs.append([law, {'D': (D if law not in ('rt_div', 'rt_muldiv') else min(D, 8))}])
     r = _leaf(obs, FIXED_FUNCS + RAT_FUNCS, require=list(laws.FIXED_LAWS) + list(laws.RATIONAL_LAWS))
